@@ -37,7 +37,7 @@ func genOnce(t *rapid.T) OnceCase {
 		case "resolve":
 			op.Pre = rapid.IntRange(0, 11).Draw(t, "pre") == 0
 		case "finish":
-			op.Out = rapid.SampledFrom([]string{"value", "err", "err", "ctxerr"}).Draw(t, "out")
+			op.Out = rapid.SampledFrom([]string{"value", "err", "err", "ctxerr", "wrapctxerr"}).Draw(t, "out")
 			op.Pick = rapid.IntRange(0, 3).Draw(t, "pick")
 		case "cancel":
 			op.Pick = rapid.IntRange(0, 5).Draw(t, "pick")
@@ -57,6 +57,8 @@ type invocation struct {
 	returned bool
 	val      int
 	err      error
+	// cancelDerived: the error was produced because the invocation's (initiator's) context was cancelled
+	cancelDerived bool
 }
 
 type caller struct {
@@ -132,6 +134,14 @@ func body16(c *sched.Ctl, cs OnceCase, v *ev.Verdict) {
 		case "ctxerr":
 			if inv.ctx != nil && inv.ctx.Err() != nil {
 				inv.err = inv.ctx.Err()
+				break
+			}
+			fallthrough
+		case "wrapctxerr":
+			if out == "wrapctxerr" && inv.ctx != nil && inv.ctx.Err() != nil {
+				// a function that reports its cancellation with a wrapped error
+				inv.err = fmt.Errorf("fn-%d aborted: %w", inv.id, inv.ctx.Err())
+				inv.cancelDerived = true
 				break
 			}
 			fallthrough
@@ -232,6 +242,13 @@ func body16(c *sched.Ctl, cs OnceCase, v *ev.Verdict) {
 					}
 					if !ok {
 						fail("once:unknown-error", "caller #%d returned error %v which no invocation returned", cl.id, err)
+					}
+					if !cs.Memo && !cl.cancelled {
+						for _, inv := range invs {
+							if inv.cancelDerived && inv.err == err {
+								fail("once:cancellation-leaked", "caller #%d (own context live) returned %v, the error of an invocation that was aborted only because its initiating caller's context was cancelled; it should have obtained a result from a new invocation", cl.id, err)
+							}
+						}
 					}
 					if !cs.Memo && cl.forbidden[err] {
 						fail("once:stale-error", "caller #%d was issued after another caller had already received %v, yet it returned that same error instead of calling the function again", cl.id, err)
